@@ -4,6 +4,7 @@ package main
 // dispatch, and the default (havoc) treatment of uncontracted callees.
 
 import (
+	"go/token"
 	"go/ast"
 	"fmt"
 	"go/types"
@@ -42,7 +43,21 @@ func (x *Exec) goCall(s *State, in *ssa.Go) {
 	if !ok || !isRepoFunc(fn) {
 		return
 	}
+	// the variables a spawned closure captured are visible to at-call clauses
+	// as captured_<name> (their values at the go statement)
+	x.extraLets = map[string]Val{"spawned": TTrue}
+	for i, a := range args {
+		x.extraLets[fmt.Sprintf("arg%d", i)] = a
+	}
+	for i, fv := range fn.FreeVars {
+		if i < len(f.Bind) {
+			if pv, ok := f.Bind[i].(*PtrV); ok && pv.Obj != nil {
+				x.extraLets["captured_"+fv.Name()] = x.load(s, pv)
+			}
+		}
+	}
 	x.atCallAssertions(s, in, fn.String())
+	x.extraLets = nil
 	c := x.P.contractFor(fn)
 	if c == nil || (len(c.Requires) == 0 && len(c.ChanInvs) == 0) {
 		return
@@ -94,6 +109,22 @@ func (x *Exec) atCallAssertionsCallee(s *State, site ssa.Instruction, calleeName
 		}
 		if callee != nil {
 			env.lets["callee"] = callee
+		}
+		env.lets["spawned"] = TFalse // true at a `go` statement
+		for k, v := range x.extraLets {
+			env.lets[k] = v
+		}
+		if ac.Effect != nil {
+			// ghost update at the call: g_x == expr
+			if be, ok := ac.Effect.Expr.(*ast.BinaryExpr); ok && be.Op == token.EQL {
+				if id, ok := be.X.(*ast.Ident); ok && strings.HasPrefix(id.Name, "g_") {
+					s.ghost[id.Name] = env.eval(be.Y)
+					s.writes["ghost:var:"+id.Name] = writeRec{obj: x.fsMarker()}
+					continue
+				}
+			}
+			x.errorf("at-call effect needs the form `g_name == expr`")
+			continue
 		}
 		t := env.evalBool(ac.Pred.Expr)
 		x.oblige(s, "assert", fmt.Sprintf("%s@%s", ac.Pred.Label, x.label(s, site)), t, site, ac.Pred.Src)
